@@ -39,6 +39,7 @@ import (
 	"github.com/emersion/go-smtp"
 	"github.com/foxcpp/maddy/framework/buffer"
 	"github.com/foxcpp/maddy/framework/config"
+	"github.com/foxcpp/maddy/framework/exterrors"
 	"github.com/foxcpp/maddy/framework/log"
 	"github.com/foxcpp/maddy/framework/module"
 	smtpendp "github.com/foxcpp/maddy/internal/endpoint/smtp"
@@ -67,6 +68,11 @@ func setC11Target(t *c11Target) {
 			defer c11Mu.Unlock()
 			return c11Cur, nil
 		})
+		module.Register("check.verifc11", func(_, _ string, _, _ []string) (module.Module, error) {
+			c11Mu.Lock()
+			defer c11Mu.Unlock()
+			return &c11Check{t: c11Cur}, nil
+		})
 	})
 	c11Mu.Lock()
 	c11Cur = t
@@ -85,13 +91,37 @@ type c11Delivery struct {
 func (t *c11Target) Start(_ context.Context, _ *module.MsgMetadata, mailFrom string) (module.Delivery, error) {
 	t.mu.Lock()
 	defer t.mu.Unlock()
-	if t.reject[mailFrom] {
-		delete(t.reject, mailFrom)
-		return nil, &smtp.SMTPError{Code: 550, EnhancedCode: smtp.EnhancedCode{5, 7, 1}, Message: "verif: sender refused"}
-	}
 	t.open++
 	return &c11Delivery{t: t, from: mailFrom}, nil
 }
+
+// the sender-stage check of the pipeline: refuses the planned senders, which makes
+// pipeline.Start fail inside startDelivery, right after TakeMsg succeeded
+type c11Check struct{ t *c11Target }
+type c11CheckState struct{ t *c11Target }
+
+func (c *c11Check) Name() string             { return "verifc11" }
+func (c *c11Check) InstanceName() string     { return "verifc11" }
+func (c *c11Check) Init(_ *config.Map) error { return nil }
+func (c *c11Check) CheckStateForMsg(context.Context, *module.MsgMetadata) (module.CheckState, error) {
+	return &c11CheckState{t: c.t}, nil
+}
+func (s *c11CheckState) CheckConnection(context.Context) module.CheckResult { return module.CheckResult{} }
+func (s *c11CheckState) CheckSender(_ context.Context, mailFrom string) module.CheckResult {
+	s.t.mu.Lock()
+	defer s.t.mu.Unlock()
+	if s.t.reject[mailFrom] {
+		delete(s.t.reject, mailFrom)
+		return module.CheckResult{Reject: true, Reason: &exterrors.SMTPError{Code: 550,
+			EnhancedCode: exterrors.EnhancedCode{5, 7, 1}, Message: "verif: sender refused", CheckName: "verifc11"}}
+	}
+	return module.CheckResult{}
+}
+func (s *c11CheckState) CheckRcpt(context.Context, string) module.CheckResult { return module.CheckResult{} }
+func (s *c11CheckState) CheckBody(context.Context, textproto.Header, buffer.Buffer) module.CheckResult {
+	return module.CheckResult{}
+}
+func (s *c11CheckState) Close() error { return nil }
 
 func (d *c11Delivery) AddRcpt(context.Context, string, smtp.RcptOptions) error { return nil }
 func (d *c11Delivery) Body(context.Context, textproto.Header, buffer.Buffer) error {
@@ -320,6 +350,7 @@ func runEndpointBehaviour(t *testing.T, b EBehaviour, w *bufio.Writer) {
 			enode("defer_sender_reject", []string{yn}),
 			enode("buffer", []string{"ram"}),
 			enode("limits", nil, limitNodes(b.Cfg, b.Dual)...),
+			enode("check", nil, enode("verifc11", nil)),
 			enode("default_source", nil,
 				enode("default_destination", nil, enode("deliver_to", []string{"verifc11"}))),
 		}
